@@ -49,6 +49,11 @@ CHECKS['C17'] = dict(
    note='Trusted: Lean kernel; axioms propext, Classical.choice, Quot.sound; tools/gen_implements.py and gen_regex.py (both cross-checked each run); ASCII labels. Where no weight is tabulated get_specific_event_code raises ValueError: observed, not demanded.',
    technique='Lean 4 proof + decide +kernel over a decision tree regenerated from the Python ast and over live table keys',
    ref='7/C17')
+CHECKS['C16'] = dict(
+   text='Machine-checked proofs (Lean 4, core) that the protocols the repaired code follows are linearizable for ANY number of threads and EVERY schedule (no bound, no fairness): build-locally-then-publish lazy tables, assign-after-build, grader look-ups with thread-local results, bounded memo cache with eviction under one lock step; each finished thread holds its sequential result; the pinned protocols (publish-empty-then-fill, shared scratch, unlocked check-then-read) are refuted by kernel-decided counter-schedules. Tie to the code: (T) the ordered shared-state accesses of the anchored functions are regenerated from the Python ast on every run and a kernel-decided discipline (globals only rebound to completed locals, no read-back of per-call attributes on shared graders, cache mutation only under a lock) must hold of them; (C) a controlled line-level scheduler (sys.settrace + baton passing) runs the REAL functions under every schedule with one forced pre-emption (two in thorough) at every distinct athlib source line, first-call / warmed-up / cache-at-limit variants, pairs and triples, and compares every thread result with a single-threaded order.',
+   note='Partial by nature: the model and the scheduler work at athlib source-line granularity; bytecode-level pre-emption inside a line, C-level dict atomicity and free-threaded builds are outside both. Trusted: Lean kernel; axioms propext, Classical.choice, Quot.sound; tools/gen_access.py; tools/sched.py.',
+   technique='Lean 4 invariant proofs over step machines (all schedules) + ast access-discipline obligation + sys.settrace schedule enumeration on the real code',
+   ref='7/C16')
 NOT_YET = {}
 def main():
     props = [json.loads(l) for l in open(os.path.join(HERE, 'properties.jsonl'))]
